@@ -29,7 +29,7 @@ class Mem:
         self.cells = collections.defaultdict(dict)      # region -> off -> AV
         self.ranges = collections.defaultdict(dict)     # region -> lo -> AV  (lo may be -inf as None)
         self.all = {}                                   # root -> AV
-        self.public = set()                             # (region, off) forced public
+        self.public = set()                             # (region, off) declassified cells (flow-insensitive: see DESIGN 11.10 for the blind spot this leaves)
         self.changed = False
         self.epoch = 0; self.root_epoch = {}; self.reading = [set()]; self.trace = False
         self.prov = {}; self.site = None
